@@ -131,16 +131,49 @@ def scaling_composition(repo, col):
                 "rescaling not in the recognised form", undecided=True)
         return
     want_slope = canon_src("(output_max - output_min) / (input_max - input_min)")
-    got = _canon(ps)
+    # the output range under a record: `r = helper(output_dtype)`, then
+    # r.min / r.max (and properties of the record such as r.span) are the
+    # bounds the rule knows as output_min / output_max
+    import copy as _cp
+    from .core import expand_properties
+
+    def _range_record(name):
+        vs = [d.value for d in defs.get(name, []) if d.value is not None]
+        return len(vs) == 1 and isinstance(vs[0], ast.Call) and any(
+            "output" in n_ for a_ in list(vs[0].args) + [
+                k.value for k in vs[0].keywords] for n_ in names_in(a_))
+
+    class _Roles(ast.NodeTransformer):
+        def visit_Attribute(self, n):
+            n = self.generic_visit(n)
+            if isinstance(n.value, ast.Name) and n.attr in ("min", "max") \
+                    and _range_record(n.value.id):
+                return ast.copy_location(
+                    ast.Name(id="output_" + n.attr, ctx=ast.Load()), n)
+            return n
+
+    def _prep(e):
+        e = expand_properties(repo, fn.module, _cp.deepcopy(e))
+        return ast.fix_missing_locations(_Roles().visit(e))
+
+    def _opaque(e):
+        return any(isinstance(x, (ast.Attribute, ast.Call, ast.Subscript))
+                   for x in ast.walk(e))
+    ps2, pi2 = _prep(ps), _prep(pi)
+    got = _canon(ps2)
+    und = got is None or (got != want_slope and _opaque(ps2))
     col.add(rule, fn, "slope = (out_max - out_min) / (in_max - in_min)",
-            got == want_slope, "" if got == want_slope else
-            "post-scaling slope is %s" % got, undecided=got is None)
-    got = _canon(pi)
+            got == want_slope or und, "" if got == want_slope else
+            "post-scaling slope is %s" % got, undecided=und and
+            got != want_slope)
+    got = _canon(pi2)
     want = canon_src("output_min - input_min * postscaling_slope")
-    col.add(rule, fn, "intercept = out_min - in_min * slope", got == want,
+    und = got is None or (got != want and _opaque(pi2))
+    col.add(rule, fn, "intercept = out_min - in_min * slope",
+            got == want or und,
             "input_min maps to the target minimum" if got == want else
             "post-scaling intercept is %s: input_min no longer maps to the "
-            "target minimum" % got, undecided=got is None)
+            "target minimum" % got, undecided=und and got != want)
     # composition with the header's own scaling
     sl = il = None
     for st in stmts_of(fn.node):
